@@ -29,7 +29,24 @@ ON_MISS = {
     # re-entrant loaders: they store into the very cache that is looking the key up, before returning
     'prefetch_self': lambda k: ('m', k),
     'prefetch_other': lambda k: ('m', k),
+    # loaders that fail for every other key: with KeyError (what a backing dict raises; get/setdefault then fall back to
+    # the caller's default) or with another exception (propagates); the lookup was a miss either way
+    'raise_key': lambda k: _raise_if_odd(k, KeyError),
+    'raise_value': lambda k: _raise_if_odd(k, ValueError),
 }
+
+
+def _key_index(k):
+    for i, kk in enumerate(KEYTAB):
+        if type(kk) is type(k) and kk == k:
+            return i
+    return int(k[1:])
+
+
+def _raise_if_odd(k, exc):
+    if _key_index(k) % 2:
+        raise exc(k)
+    return ('m', k)
 
 
 class Ref:
@@ -94,6 +111,13 @@ class Ref:
             return d
 
 
+def _expect(f, *a):
+    try:
+        return ('ok', f(*a))
+    except (KeyError, ValueError) as e:
+        return ('exc', type(e).__name__)
+
+
 def _call(f, *a, **kw):
     try:
         return ('ok', f(*a, **kw))
@@ -143,7 +167,7 @@ def strat(tier):
             'sub': 'cache',
             'cls': draw(st.sampled_from(['LRI', 'LRU', 'LRU'])),
             'max_size': max_size,
-            'on_miss': draw(st.sampled_from(['none', 'none', 'tuple', 'nonev', 'ident', 'prefetch_self', 'prefetch_other'])),
+            'on_miss': draw(st.sampled_from(['none', 'none', 'tuple', 'nonev', 'ident', 'prefetch_self', 'prefetch_other', 'raise_key', 'raise_value'])),
             'init': draw(st.one_of(st.none(), st.tuples(st.sampled_from(['dict', 'pairs']), pairs).map(list))),
             'ops': draw(st.lists(op, min_size=draw(st.sampled_from([0, 0, 8, 15])), max_size=nops)),
             'repeat': draw(st.sampled_from(REPEATS)),
@@ -337,10 +361,7 @@ def run(case):
         elif name == 'getitem':
             k = K(op[2] % nkeys)
             got = _call(c.__getitem__, k)
-            try:
-                exp = ('ok', ref.getitem(k))
-            except KeyError:
-                exp = ('exc', 'KeyError')
+            exp = _expect(ref.getitem, k)
         elif name == 'del':
             k = K(op[2] % nkeys)
             got = _call(c.__delitem__, k)
@@ -352,20 +373,20 @@ def run(case):
             k = K(op[2] % nkeys)
             if op[3] is None:
                 got = _call(c.get, k)
-                exp = ('ok', ref.get(k))
+                exp = _expect(ref.get, k)
             else:
                 d = DEFAULT(op[3], ref, k)
                 got = _call(c.get, k, d)
-                exp = ('ok', ref.get(k, d))
+                exp = _expect(ref.get, k, d)
         elif name == 'setdefault':
             k = K(op[2] % nkeys)
             if op[3] is None:
                 got = _call(c.setdefault, k)
-                exp = ('ok', ref.setdefault(k))
+                exp = _expect(ref.setdefault, k)
             else:
                 d = DEFAULT(op[3], ref, k)
                 got = _call(c.setdefault, k, d)
-                exp = ('ok', ref.setdefault(k, d))
+                exp = _expect(ref.setdefault, k, d)
         elif name == 'update':
             if op[2] == 'self':
                 got = _call(c.update, c)
